@@ -424,14 +424,14 @@ def run(ctx):
     r = ctx.rng("uprops")
     pool = ends + r.sample(di_pool, ctx.budget(200, len(di_pool))) + LETTERS + [0x301, 0x20, 0x2003]
     pool = [c for c in dict.fromkeys(pool) if chars.p.get(c)]
-    P.correspond(ctx, "di-uprops", uprops_lines(r, chars, pool, ctx.budget(3000, 60000)),
+    P.correspond(ctx, "di-uprops", uprops_lines(r, chars, pool, ctx.budget(3000, 200000)),
                    classify=lambda ln, out: [ln.split()[1]])
-    P.correspond(ctx, "di-clusters", cluster_lines(ctx.rng("clusters"), ctx.budget(6000, 200000)),
+    P.correspond(ctx, "di-clusters", cluster_lines(ctx.rng("clusters"), ctx.budget(6000, 600000)),
                    classify=lambda ln, out: [ln.split()[1] + ":level" + ln.split()[2]])
     r = ctx.rng("shape")
     pick = ends + r.sample(di_pool, 300)
     P.correspond(ctx, "di-shape", shape_corr_lines(r, chars, [c for c in pick if chars.in_scope(c)],
-                                                      ctx.budget(700, 17000)), classify=classify_shape)
+                                                      ctx.budget(700, 50000)), classify=classify_shape)
 
     r = ctx.rng("invisible")
     if ctx.quick:
